@@ -676,6 +676,11 @@ def np_call(ev, name, args, kwargs, node):
         if is_const(nd):
             return xv if const_of(nd) >= 1 else mk_app("expand_dims", [xv], [("axis", Const(0))])
         return ite(compare("==", nd, Const(0)), App("expand_dims", (xv,), [("axis", Const(0))]), xv)
+    if name in ("diff", "negative", "subtract") and A:
+        from .evalr import raw_dtype_root
+        rs = [raw_dtype_root(as_v(ev, a)) for a in A[:2]]
+        if (name == "subtract" and len(rs) == 2 and all(r is not None for r in rs)) or (name != "subtract" and rs[0] is not None):
+            ev.event("raw_arith", op="np." + name, root=[r for r in rs if r is not None][0], node=node, text="np.%s(...)" % name)
     if name == "ravel" and len(A) == 1 and (kwargs.get("order") in (None, Const("C"))):
         return np_call(ev, "reshape", [A[0], Const(-1)], {}, node)  # C-order ravel is reshape(-1)
     if name in ("ravel", "flatten", "reshape") and kwargs.get("order") not in (None, Const("C")):
